@@ -215,6 +215,13 @@ def judge(res, U, Ulines, r, wr, flags, tape, prior_oracle=None):
         if S != Ulines:
             is_prefix = S == Ulines[:len(S)]
             return ("stream_changed_without_quit", dict(info, is_prefix=is_prefix))
+        # bounded liveness under a fair schedule: in a directed case the keyboard thread has the higher priority, was handed
+        # 'q' before the first guess and needs 0.1 virtual seconds; if it ended without ever reaching the line that sets
+        # the flag although plenty of guesses followed, the explicit quit was swallowed
+        q_seen = [d for d in kb.delivered if d[0] == "line" and d[1] == "q"]
+        if sim.sync is not None and sim.sync_state == "idle" and q_seen and thr and thr[0].finished and died is None \
+                and total - q_seen[0][2] >= 12:
+            return ("explicit_quit_ignored", dict(info, q_delivered_after_lines=q_seen[0][2]))
         return None
     g_s = se[1]
     info["flag_set_after_lines"] = g_s
